@@ -200,7 +200,7 @@ func (c c02) Run(ctx *core.Ctx) error {
 	for _, x := range cs {
 		cases = append(cases, core.J(x))
 	}
-	ctx.Ev.Rule = "sessions (open, operations, rotations, flushes, compactions, close, reopen) run in a traced child process; the tracer admits one file-system-mutating system call at a time and snapshots the directory at the entry of each (= every boundary between two completed calls of any thread); hold policies additionally stop the flusher/compactor thread at its n-th call while the client runs on (consistent cuts); every distinct image is recovered by a fresh process with default options and compared with the reference of the operations acknowledged at that instant (operations in flight may be present or absent). distinct = (session, image, acknowledged set); non-trivial = image taken after the first acknowledged write"
+	ctx.Ev.Rule = "sessions (open, operations, rotations, flushes, compactions, close, reopen) run in a traced child process; the tracer admits one file-system-mutating system call at a time and snapshots the directory at the entry of each (= every boundary between two completed calls of any thread); hold policies additionally stop the flusher/compactor thread at its n-th call while the client runs on (consistent cuts); every distinct image is recovered by a fresh process with default options and compared with the reference of the operations acknowledged at that instant (operations in flight may be present or absent); for the small sessions the recovering process is additionally killed the moment Open has returned and the directory is recovered once more against the same reference. distinct = (session, image, acknowledged set); non-trivial = image taken after the first acknowledged write"
 	ctx.Ev.Bounds["sessions"] = len(cases)
 	ctx.Ev.Assume = []string{"kill -9 model: the file system retains every completed system call (no torn writes, no power loss) - this is the fault model the property states",
 		"crash points are boundaries between mutating system calls (write, open-with-create, rename, unlink, mkdir, rmdir, truncate); only one is in flight at a time, so every image is exactly a set of completed calls"}
@@ -293,12 +293,55 @@ func (c c02) Case(w *core.WCtx, payload json.RawMessage) core.Result {
 				viol(c.sigData(tr, s), img, "image %d (%s; acked ops %v in flight %v): recovered %s, acceptable: %s", img, where, s.Acked, s.Inflight, mapStr(got), strings.Join(wants, " or "))
 			}
 		}
+		// a second kill right after the recovery: the process that re-opened the directory is stopped the moment Open has
+		// returned (nothing it holds only in memory may be needed), and the directory it leaves is recovered once more
+		anyAcked := false
+		for _, s := range ss {
+			anyAcked = anyAcked || len(s.Acked) > 0
+		}
+		if anyAcked && exit == 0 && d.OpenErr == "" && secondKill(cs.Name) && len(r.Viol) == 0 {
+			work := filepath.Join(dir, "k2")
+			removeAll(work)
+			if err := tr.Materialize(tr.Images[img], work); err != nil {
+				viol("", img, "harness: %v", err)
+				continue
+			}
+			tr2 := ktrace.Run(ktrace.Options{Dir: work, Argv: append([]string{binPath("vchild"), "recover", work}, crashKeys...), StopAfter: "OPENED"})
+			if tr2.Err != nil || !tr2.Stopped {
+				viol("", img, "image %d: traced recovery did not reach the end of Open (err %v exit %d)", img, tr2.Err, tr2.ExitCode)
+				continue
+			}
+			d2, exit2, stderr2, err := recoverImage(tr2, tr2.Images[tr2.FinalImage], rdir, crashKeys)
+			r.Traces++
+			r.Extra["second_kill_after_recovery"]++
+			switch {
+			case err != nil:
+				viol("", img, "harness: %v", err)
+			case exit2 != 0 || d2.OpenErr != "":
+				viol("second-kill:open-fails", img, "image %d (%s): recovered once, killed when Open had returned, recovered again: Open failed: exit %d %s %s", img, ss[0].Desc, exit2, d2.OpenErr, stderr2)
+			default:
+				got2 := dumpMap(d2)
+				for _, s := range ss {
+					r.Evals++
+					if ok, wants := c.acceptable(cs, s, got2); !ok {
+						viol("second-kill:data-differs", img, "image %d (%s; acked ops %v in flight %v): recovered once, killed when Open had returned, recovered again: reads %s, acceptable: %s", img, s.Desc, s.Acked, s.Inflight, mapStr(got2), strings.Join(wants, " or "))
+						break
+					}
+				}
+			}
+		}
 	}
 	r.Outcome = fmt.Sprintf("%s ok=%v", strings.SplitN(cs.Name, "-", 2)[0], len(r.Viol) == 0)
 	if cs.Name == "i" && len(cs.Sess.Ops) == 4 {
 		r.Sample = string(core.J(map[string]any{"session": sessStr(cs.Sess), "mutating_calls": r.Extra["mutating_calls_client"] + r.Extra["mutating_calls_flusher"], "distinct_images": len(tr.Images), "situations": len(sits)}))
 	}
 	return r
+}
+
+// secondKill: which sessions get the kill-after-recovery step (the large-file and hold sessions are left to C10's
+// nested exploration, which covers every boundary of the recovery, not only its end)
+func secondKill(name string) bool {
+	return !strings.HasPrefix(name, "vi-hold") && !strings.HasPrefix(name, "iv-") && !strings.HasPrefix(name, "async-")
 }
 
 func holdStr(h *ktrace.Hold) string {
